@@ -44,6 +44,8 @@ type FMap struct {
 	To      []FEntry `json:"to,omitempty"`
 	Take    *int     `json:"take,omitempty"`
 	TakeMap bool     `json:"takemap,omitempty"` // Take: the field holds a (nested) map, the successor's input is a map
+
+	mapValued bool // generator's note for the distribution: some MapFields source holds a map
 }
 
 type Prog struct {
